@@ -230,7 +230,7 @@ CHECKS = {
         stages=[MEM],
         technique="TLA+ ownership model (buffers with owners and content tokens, results, views) (Mem.tla): TLC exhaustive over "
                   "all short histories + TLC validation of recorded real histories with caller scribbling and snapshot comparison",
-        level_text="TLC explores every history of <=6 (thorough 8) encode/decode/scribble/frame-view operations with 2 pooled "
+        level_text="TLC explores every history of <=6 (thorough 7) encode/decode/scribble/frame-view operations with 2 pooled "
                    "buffers and <=3 live results: no step changes a result the caller did not overwrite itself, except views; "
                    "'encoder hands out the pooled buffer' and 'decoder keeps referring to its input' are negative configurations "
                    "(TLC produces decode, scribble input, observe change).  Real histories (encode, decode, String, split, the six text codecs and the GSM 7-bit function set, Build twice on one "
